@@ -177,8 +177,11 @@ func verify(obj *code.Object, maxStates int) ([]sfault, staticStats, bool) {
 			popString()
 			push(av('b'))
 		case code.Cmp:
-			pop()
-			pop()
+			// compare() takes int, int64, float64 and string operands; anything else (a datum that was not
+			// dereferenced, a bool, a duration) is "cannot compare" at run time on every input
+			isCmp := func(v aval) bool { return v[0] == 'i' || v[0] == 'n' || v[0] == 'f' || v[0] == 's' }
+			popTyped("comparison", isCmp)
+			popTyped("comparison", isCmp)
 			push(av('b'))
 		case code.Icmp:
 			popInt()
